@@ -412,6 +412,18 @@ Proof.
 Qed.
 Print Assumptions C06_arith_examples.
 
+(* int against float beyond the precision of float64, as an operator and as bound validation *)
+Example C06_mixed_order_examples :
+  num_cmp CGt (i_ 9007199254740993) (f_ 90071992547409920 (-1)) = true /\
+  num_cmp CLe (i_ 9007199254740993) (f_ 90071992547409920 (-1)) = false /\
+  num_cmp CGt (i_ (2 ^ 63)) (f_ (2 ^ 63 * 10 - 5) (-1)) = true /\
+  num_cmp CGt (i_ (10 ^ 34 + 1)) (f_ 10 33) = true /\
+  num_cmp CLt (i_ 0) (f_ 1 (-400)) = true /\
+  eval true (EBound CGt (ELit (i_ 9007199254740993)) (ELit (f_ 90071992547409920 (-1)))) = Ok (VNum (i_ 9007199254740993)) /\
+  eval true (EBound CLt (ELit (i_ 9007199254740993)) (ELit (f_ 90071992547409920 (-1)))) = Err.
+Proof. exact ex_mixed_order. Qed.
+Print Assumptions C06_mixed_order_examples.
+
 (* the tables of doc/ref/spec.md, and big operands *)
 Example C06_int_div_examples :
   (map (fun '(x, y) => (int_div_op FDiv x y, int_div_op FMod x y))
